@@ -432,7 +432,7 @@ func (b *Buffer) ensure() {
 			}
 		})
 	}
-	if b.cleaner == nil {
+	if b.cond == nil { // N.B. not b.cleaner, which SetCleanerConfig reassigns under the lock; b.cond is set once, last
 		changes = append(changes, func() {
 			if b.cleaner == nil {
 				// setup the cleaner defaults - it's done here to allow new(bigbuff.Buffer)
